@@ -1,3 +1,4 @@
+import Oidc.Proofs.CodeStrings
 import Oidc.Shapes
 import Oidc.Facts
 import Oidc.Proofs.World
@@ -103,5 +104,13 @@ theorem text_BuildLogoutURL_ok : Oidc.Shapes.Text_BuildLogoutURL := by unfold Oi
 
 /-! ## Program text of the helpers these theorems also rest on (constructors, accessors, token endpoint, configuration) -/
 theorem text_TraefikOidc_RevokeTokenWithProvider_ok : Oidc.Shapes.Text_TraefikOidc_RevokeTokenWithProvider := by unfold Oidc.Shapes.Text_TraefikOidc_RevokeTokenWithProvider; rfl
+
+/-! ## The same statements about the code itself: the functions below are `Oidc.Generated.Code`, which `tools/go2lean` translates
+    from /repo's source, statement by statement, on every run (meaning of the Go constructs: `Oidc/GoLib.lean`) -/
+open Oidc.Generated Oidc.CodeRefine in
+/-- main.go `determineScheme` / `determineHost` as translated give the base the post-logout URI is resolved against -/
+theorem code_origin (t : Go.Inst) (q : RawReq) :
+    Code.TraefikOidc_determineScheme t (goReq q) ++ "://".toList ++ Code.TraefikOidc_determineHost t (goReq q) = (digest q).base := by
+  rw [determineScheme_refines, determineHost_refines]; rfl
 
 end Oidc.Props.C11
